@@ -75,6 +75,24 @@ def gen_scalar(rng, nonfinite=True):
     return gen_str(rng, 30)
 
 
+def harvested(lo, hi, around=True):
+    """Integer constants found in the code under test within [lo, hi] (see seams._harvest_int_constants), with their neighbours."""
+    import seams
+    lib = seams._LIB
+    cs = [c for c in (getattr(lib, "int_constants", None) or []) if lo <= c <= hi]
+    if not around:
+        return cs
+    out = []
+    for c in cs:
+        out += [c - 1, c, c, c + 1]
+    return [x for x in out if lo <= x <= hi]
+
+
+# strings that make backtracking pattern matchers explode: a long run that almost matches, then one character that does not
+REDOS = ["0.6.0-" + "rc1candidate" * 4 + "!", "1" * 40 + "!", "a" * 40 + "!", "1." * 30 + "x!", "a-" * 30 + "!", "0" + ".0" * 40 + "+", "1" + "a1" * 30 + " ",
+         "2021-01-01T00:00:00" + "0" * 40 + "Z!", "ab" * 64 + "!", " " * 60 + "x", "\t" * 50 + "!", "a" * 30 + "\n" + "a" * 30 + "!"]
+
+
 VOCAB = ["see_also", "signature", "other_headers", "signatures", "signed", "type", "version", "timestamp", "expiration", "delegations", "pubkeys",
          "threshold", "metadata_spec_version", "packages", "packages.conda", "info", "sha256", "md5", "name", "subdir", "fingerprint", "keyid"]
 
@@ -146,6 +164,17 @@ def gen_payload(rng, nonfinite=True):
         return {"deep": gen_deep(rng)}
     if r < 0.03:
         return {"long": as_parsed(gen_str(rng, 3) * rng.choice([1000, 30000])), "many": list(range(rng.choice([100, 3000])))}
+    if r < 0.04:
+        # very many empty containers in one document (a repodata file with thousands of `"depends": []`)
+        n = rng.choice([300, 1001, 1500, 4000])
+        return {"packages": {"p%d" % i: {"depends": [], "constrains": [], "track_features": {}} for i in range(n // 3)}, "removed": [[] for _ in range(rng.choice([0, 10]))]}
+    if r < 0.07:
+        # a wide record: many members at one level
+        d = gen_json(rng, 2, None, nonfinite)
+        d = d if isinstance(d, dict) else {"v": d}
+        for i in range(rng.choice([6, 8, 12, 40])):
+            d["m%02d" % i] = gen_scalar(rng, nonfinite)
+        return d
     if r < 0.75:
         d = gen_json(rng, rng.choice([1, 2, 3, 4]), None, nonfinite)
         if not isinstance(d, dict):
@@ -355,8 +384,10 @@ def confuse(rng, old=None):
     if r < 0.48:
         return rng.choice([math.inf, -math.inf, math.nan, 1.0, 2.0, 1.5, 0.0, -0.0, 9007199254740992.0,
                            1e308, 5e-324, 0.9999999999999999])
-    if r < 0.58:
+    if r < 0.56:
         return rng.choice(["", "root", "key_mgr", "1", "2020-01-01T00:00:00Z", "\ud800", "é"])
+    if r < 0.58:
+        return rng.choice(REDOS)
     if r < 0.68:
         return []
     if r < 0.78:
